@@ -106,15 +106,25 @@ impl ProcfsBase {
             .into_iter()
             // Return the first option that exists in proc_root.
             .find(|base| {
+                // NOTE: We must use the raw rustix wrapper for this probe.
+                // syscalls::fstatat() builds a FrozenFd for its error value,
+                // which itself calls into_path(None) and would thus recurse
+                // without bound if /proc is not usable.
+                let flags = AtFlags::NO_AUTOMOUNT | AtFlags::SYMLINK_NOFOLLOW;
                 match proc_root {
-                    Some(root) => syscalls::fstatat(root, base),
-                    None => {
-                        syscalls::fstatat(syscalls::AT_FDCWD, PathBuf::from("/proc").join(base))
-                    }
+                    Some(root) => rustix_fs::statat(root, base, flags),
+                    None => rustix_fs::statat(
+                        syscalls::AT_FDCWD,
+                        PathBuf::from("/proc").join(base),
+                        flags,
+                    ),
                 }
                 .is_ok()
             })
-            .expect("at least one candidate /proc/thread-self path should work"),
+            // If none of the candidates can be looked up (for instance because
+            // /proc is not usable at all) use the canonical name -- any lookup
+            // through it will then fail with a regular error.
+            .unwrap_or_else(|| "thread-self".into()),
         }
     }
     // TODO: Add into_raw_path() that doesn't use symlinks?
